@@ -66,6 +66,7 @@ def gen(rng):
     s["nA"] = rng.randint(20, 32)
     s["nB"] = rng.choice([0, 0, rng.randint(14, 20)])
     s["nD"] = rng.choice([0, 0, rng.randint(12, 18)])      # dimers A-B with a bond
+    s["nT"] = rng.choice([0, 0, rng.randint(20, 28)])      # trimers A-B-A with two bonds and an angle
     s["frames"] = rng.randint(2, 6)
     s["fpb"] = rng.choice([1, 1, 2, 3])
     s["fpb"] = min(s["fpb"], s["frames"])
@@ -76,16 +77,22 @@ def gen(rng):
     step = rng.choice([0.1, 0.125, 0.2])
     mx = 1.0
     mn = 0.2 if step != 0.125 else 0.25
-    types_present = ["A"] + (["B"] if (s["nB"] or s["nD"]) else [])
-    pairs = [("A", "A")] + ([("A", "B")] if "B" in types_present and (s["nD"] or rng.random() < 0.7) else []) + ([("B", "B")] if "B" in types_present and rng.random() < 0.4 else [])
+    types_present = ["A"] + (["B"] if (s["nB"] or s["nD"] or s["nT"]) else [])
+    pairs = [("A", "A")] + ([("A", "B")] if "B" in types_present and (s["nD"] or s["nT"] or rng.random() < 0.7) else []) + ([("B", "B")] if "B" in types_present and rng.random() < 0.4 else [])
     for (t1, t2) in pairs:
         xs = grid(mn, mx, step)
         fs = [round(rng.uniform(-50, 120) * (1 - k / len(xs)), 3) for k in range(len(xs))]
         inter.append(dict(name="%s-%s" % (t1, t2), bonded=False, t1=t1, t2=t2, min=mn, max=mx, step=step, xs=xs, fs=fs, f2=natural_f2(xs, fs)))
-    if s["nD"]:
+    if s["nD"] or s["nT"]:
         xs = grid(0.1, 0.5, 0.1)
         fs = [round(rng.uniform(-300, 300), 2) for _ in xs]
-        inter.append(dict(name="bond", bonded=True, t1="", t2="", min=0.1, max=0.5, step=0.1, xs=xs, fs=fs, f2=natural_f2(xs, fs)))
+        inter.append(dict(name="bond", bonded=True, angle=False, t1="", t2="", min=0.1, max=0.5, step=0.1, xs=xs, fs=fs, f2=natural_f2(xs, fs)))
+    if s["nT"]:
+        xs = grid(1.0, 3.0, 0.5)
+        fs = [round(rng.uniform(-80, 80), 2) for _ in xs]
+        inter.append(dict(name="angle", bonded=True, angle=True, t1="", t2="", min=1.0, max=3.0, step=0.5, xs=xs, fs=fs, f2=natural_f2(xs, fs)))
+    for it in inter:
+        it.setdefault("angle", False)
     s["inter"] = inter
     # beads: A..., B..., dimers (A then B)
     types = ["A"] * s["nA"] + ["B"] * s["nB"]
@@ -96,7 +103,14 @@ def gen(rng):
         types += ["A", "B"]
         mols += [len(mols) and max(mols) + 1] * 2
         bonds.append((i, i + 1))
-    s["types"], s["mols"], s["bonds"] = types, mols, bonds
+    angles = []
+    for t in range(s["nT"]):
+        i = len(types)
+        types += ["A", "B", "A"]
+        mols += [max(mols) + 1 if mols else 0] * 3
+        bonds += [(i, i + 1), (i + 1, i + 2)]
+        angles.append((i, i + 1, i + 2))
+    s["types"], s["mols"], s["bonds"], s["angles"] = types, mols, bonds, angles
     n = len(types)
     s["pos"] = []
     for f in range(s["frames"]):
@@ -107,7 +121,22 @@ def gen(rng):
             tries += 1
             i = len(pts)
             partner = [b for b in bonds if b[1] == i]
-            if partner:
+            tri = [a for a in angles if a[2] == i]
+            if tri:
+                # third bead of a trimer: at an angle drawn uniformly from the angle grid, seen from the middle bead
+                q, q0 = pts[tri[0][1]], pts[tri[0][0]]
+                e1 = [q0[k] - q[k] for k in range(3)]
+                n1 = math.sqrt(sum(c * c for c in e1))
+                e1 = [c / n1 for c in e1]
+                v = [rng.gauss(0, 1) for _ in range(3)]
+                dp = sum(v[k] * e1[k] for k in range(3))
+                v = [v[k] - dp * e1[k] for k in range(3)]
+                nv = math.sqrt(sum(c * c for c in v)) or 1.0
+                e2 = [c / nv for c in v]
+                th = rng.uniform(1.05, 2.95)
+                l = rng.uniform(1.3, 4.7)
+                p = [round(q[k] + l * (math.cos(th) * e1[k] + math.sin(th) * e2[k]), 4) for k in range(3)]
+            elif partner:
                 q = pts[partner[0][0]]
                 l = rng.uniform(1.3, 4.7)
                 v = [rng.gauss(0, 1) for _ in range(3)]
@@ -126,7 +155,7 @@ def gen(rng):
             for j, q in enumerate(pts):
                 d = [(p[k] - q[k]) - 10 * L * round((p[k] - q[k]) / (10 * L)) for k in range(3)]
                 dist = math.sqrt(sum(c * c for c in d))
-                if dist < 10 * mn + 0.3 and not (partner and partner[0][0] == j):
+                if dist < 10 * mn + 0.3 and not (partner and partner[0][0] == j) and not (tri and j in tri[0]):
                     ok = False
                     break
             if ok:
@@ -143,9 +172,27 @@ def forces(s, f):
     pos = [[c * ANG2NM for c in p] for p in s["pos"][f]]
     n = len(pos)
     F = [[0.0] * 3 for _ in range(n)]
-    bonded_pairs = set(s["bonds"])
+    bonded_pairs = set(s["bonds"]) | set((a[0], a[2]) for a in s["angles"])
     for it in s["inter"]:
-        if it["bonded"]:
+        if it["angle"]:
+            for (i, j, k3) in s["angles"]:
+                u = [pos[i][k] - pos[j][k] for k in range(3)]
+                w = [pos[k3][k] - pos[j][k] for k in range(3)]
+                u = [c - L * round(c / L) for c in u]
+                w = [c - L * round(c / L) for c in w]
+                n1 = math.sqrt(sum(c * c for c in u))
+                n2 = math.sqrt(sum(c * c for c in w))
+                c = sum(u[k] * w[k] for k in range(3)) / (n1 * n2)
+                sn = math.sqrt(1 - c * c)
+                th = math.acos(c)
+                S = spline_eval(it["xs"], it["fs"], it["f2"], th)
+                gi = [-(w[k] / (n1 * n2) - c * u[k] / (n1 * n1)) / sn for k in range(3)]
+                gk = [-(u[k] / (n1 * n2) - c * w[k] / (n2 * n2)) / sn for k in range(3)]
+                for k in range(3):
+                    F[i][k] -= S * gi[k]
+                    F[k3][k] -= S * gk[k]
+                    F[j][k] += S * (gi[k] + gk[k])
+        elif it["bonded"]:
             for (i, j) in s["bonds"]:
                 d = [pos[j][k] - pos[i][k] for k in range(3)]
                 d = [c - L * round(c / L) for c in d]
@@ -184,10 +231,13 @@ def write_inputs(s, d):
             f.write('  <molecule name="MB" nmols="%d" nbeads="1"><bead name="b" type="B" mass="1.0" q="0"/></molecule>\n' % s["nB"])
         if s["nD"]:
             f.write('  <molecule name="MD" nmols="%d" nbeads="2"><bead name="a" type="A" mass="1.0" q="0"/><bead name="b" type="B" mass="1.0" q="0"/></molecule>\n' % s["nD"])
+        if s["nT"]:
+            f.write('  <molecule name="MT" nmols="%d" nbeads="3"><bead name="a1" type="A" mass="1.0" q="0"/><bead name="b" type="B" mass="1.0" q="0"/><bead name="a2" type="A" mass="1.0" q="0"/></molecule>\n' % s["nT"])
         f.write(" </molecules>\n</topology>\n")
     maps = []
-    for (mname, beads, bonded) in (("MA", [("a", "A")], False), ("MB", [("b", "B")], False), ("MD", [("a", "A"), ("b", "B")], True)):
-        if (mname == "MA" and not s["nA"]) or (mname == "MB" and not s["nB"]) or (mname == "MD" and not s["nD"]):
+    for (mname, beads, bonded) in (("MA", [("a", "A")], False), ("MB", [("b", "B")], False), ("MD", [("a", "A"), ("b", "B")], True),
+                                   ("MT", [("a1", "A"), ("b", "B"), ("a2", "A")], True)):
+        if (mname == "MA" and not s["nA"]) or (mname == "MB" and not s["nB"]) or (mname == "MD" and not s["nD"]) or (mname == "MT" and not s["nT"]):
             continue
         fn = mname.lower() + ".xml"
         maps.append(fn)
@@ -196,8 +246,10 @@ def write_inputs(s, d):
             for (bn, bt) in beads:
                 f.write("   <cg_bead><name>%s</name><type>%s</type><mapping>U</mapping><beads>1:%s:%s</beads></cg_bead>\n" % (bn.upper(), bt, mname, bn))
             f.write("  </cg_beads>\n")
-            if bonded:
+            if bonded and mname == "MD":
                 f.write("  <cg_bonded><bond><name>bond</name><beads>A B</beads></bond></cg_bonded>\n")
+            if bonded and mname == "MT":
+                f.write("  <cg_bonded><bond><name>bond</name><beads>A1 B\nB A2</beads></bond><angle><name>angle</name><beads>A1 B A2</beads></angle></cg_bonded>\n")
             f.write(" </topology>\n <maps><map><name>U</name><weights>1</weights></map></maps>\n</cg_molecule>\n")
     with open(os.path.join(d, "opt.xml"), "w") as f:
         f.write("<cg>\n <fmatch><frames_per_block>%d</frames_per_block><constrainedLS>%s</constrainedLS></fmatch>\n" % (s["fpb"], "true" if s["cls"] else "false"))
@@ -236,13 +288,23 @@ def run_one(exe, s):
         out = ["C06 fmatch %s %d %d %d %d %s" % (s["sid"], n, s["frames"], s["fpb"], 1 if s["cls"] else 0, me(s["L"]))]
         out.append(" ".join("%d %d" % (0 if t == "A" else 1, m) for t, m in zip(s["types"], s["mols"])))
         out.append("%d %s" % (len(s["bonds"]), " ".join("%d %d" % b for b in s["bonds"])))
+        out.append("%d %s" % (len(s["angles"]), " ".join("%d %d %d" % a for a in s["angles"])))
         out.append(str(len(s["inter"])))
         for it in s["inter"]:
-            out.append("%d %d %d %s %s %s %d %s" % (1 if it["bonded"] else 0, 0 if it["t1"] == "A" else 1, 0 if it["t2"] == "A" else 1,
+            out.append("%d %d %d %s %s %s %d %s" % (2 if it["angle"] else 1 if it["bonded"] else 0, 0 if it["t1"] == "A" else 1, 0 if it["t2"] == "A" else 1,
                                                    me(it["min"]), me(it["max"]), me(it["step"]), len(it["xs"]), " ".join(me(v) for v in it["fs"])))
         for fr in range(s["frames"]):
             for i in range(n):
                 out.append(" ".join(me(float("%.4f" % c) * ANG2NM) for c in s["pos"][fr][i]) + " " + " ".join(me(v) for v in refF[fr][i]))
+            # witnesses: the angle values of this frame (the model checks their cosines against the geometry)
+            P = [[float("%.4f" % c) * ANG2NM for c in q] for q in s["pos"][fr]]
+            for (i, j, k3) in s["angles"]:
+                u = [P[i][k] - P[j][k] for k in range(3)]
+                w = [P[k3][k] - P[j][k] for k in range(3)]
+                u = [c - s["L"] * round(c / s["L"]) for c in u]
+                w = [c - s["L"] * round(c / s["L"]) for c in w]
+                c = sum(u[k] * w[k] for k in range(3)) / math.sqrt(sum(x * x for x in u) * sum(x * x for x in w))
+                out.append(me(math.acos(max(-1.0, min(1.0, c)))))
         tabs = []
         for k, it in enumerate(s["inter"]):
             p = os.path.join(d, it["name"] + ".force")
